@@ -49,6 +49,7 @@ struct PassResult {
   uint64_t dev_bytes = 0;
   bool first_call_read_device = false;
   bool aborted = false;
+  bool served_without_device = false; // on a fresh thread, 64 MiB were handed out without one read of the device
 };
 
 const uint8_t PREFILL = 0xA5; // its complement 0x5A also never collides with "unwritten == equal"
@@ -57,6 +58,7 @@ const uint8_t PREFILL = 0xA5; // its complement 0x5A also never collides with "u
 
 // Result of the once-per-process probe (probe_first_use_with_descriptor_0); "" = fine.
 static string g_fd0_probe_failure;
+static string g_probe_key = "fd0";
 
 static int64_t draw_i64(const char* site) {
   switch (choose(8, site)) {
@@ -118,13 +120,26 @@ static std::vector<Op> gen_ops() {
 // Every pass must start from an empty refill buffer, whatever the library's buffering strategy (the
 // repository keeps one buffer per thread, so a fresh thread starts empty; a build with one shared buffer does
 // not). Draw single bytes until the device is read, then take the rest of what that read fetched.
-static void drain_refill_buffer() {
+static bool drain_refill_buffer() {
   uint64_t before = vfs::urandom_consumed();
   char tmp[1];
   unsigned calls = 0;
+  // single bytes first (so that the amount fetched by the refill can be seen), then pages; a buffer that
+  // hands out 64 MiB without ever reading the device is not a buffer of device data
+  std::string page(4096, '\0');
   while (vfs::urandom_consumed() == before) {
-    if (++calls > 70000) harness_bug("random_data(1) never reads the entropy device");
-    phosg::random_data(tmp, 1);
+    if (++calls > 5000 + 16384) return false;
+    if (calls <= 5000) phosg::random_data(tmp, 1);
+    else phosg::random_data(page.data(), page.size());
+  }
+  if (calls > 5000) {
+    // lost track of what the last refill left over: take single bytes until the next refill, then its rest
+    before = vfs::urandom_consumed();
+    unsigned more = 0;
+    while (vfs::urandom_consumed() == before) {
+      if (++more > 70000) return false;
+      phosg::random_data(tmp, 1);
+    }
   }
   uint64_t fetched = vfs::urandom_consumed() - before;
   if (fetched > 1) {
@@ -134,6 +149,7 @@ static void drain_refill_buffer() {
     if (vfs::urandom_consumed() != mid) harness_bug("random_data does not serve buffered bytes first: the harness cannot isolate runs");
   }
   if (calls > 1) VS_PROBE("pass_started_with_leftover_buffer");
+  return true;
 }
 
 static PassResult run_pass(const std::vector<Op>& ops, const std::vector<int>& script) {
@@ -141,7 +157,10 @@ static PassResult run_pass(const std::vector<Op>& ops, const std::vector<int>& s
   uint64_t dev_start = 0;
   std::thread t([&]() {
     vfs::set_urandom_script({}); // a healthy device while draining
-    drain_refill_buffer();
+    if (!drain_refill_buffer()) {
+      pr.served_without_device = true;
+      return;
+    }
     vfs::set_urandom_script(script);
     dev_start = vfs::urandom_consumed();
     for (size_t i = 0; i < ops.size(); i++) {
@@ -224,7 +243,8 @@ static string op_name(const Op& op) {
 
 static void run() {
   vfs::reset();
-  if (!g_fd0_probe_failure.empty()) fail("random_data/first_use_with_descriptor_0", "fd0", g_fd0_probe_failure);
+  if (!g_fd0_probe_failure.empty()) fail(g_probe_key == "fd0" ? "random_data/first_use_with_descriptor_0" : "random_data/never_recovers_from_failed_first_open", g_probe_key, g_fd0_probe_failure);
+  set_entry_errno((int)pick({0, 0, EINTR, EAGAIN, ERANGE, EBADF}, "env.errno_on_entry"));
   int mode = choose(6, "dev.mode");
   uint64_t dseed = choose(1 << 20, "dev.seed");
   std::vector<Op> ops = gen_ops();
@@ -257,9 +277,13 @@ static void run() {
   // pass A
   vfs::set_urandom(mode, dseed);
   PassResult A = run_pass(ops, script);
+  if (A.served_without_device) {
+    fail("random_data/bytes_not_from_device", "fresh_thread", "on a freshly started thread random_data handed out more than 64 MiB without reading the entropy device once: what it serves was never filled from the device (state left behind by calls on other threads)");
+  }
   // pass B: complement stream (mode + 100 => complement of mode)
   vfs::set_urandom(mode + 100, dseed);
   PassResult B = run_pass(ops, script);
+  if (B.served_without_device) fail("random_data/bytes_not_from_device", "fresh_thread", "on a freshly started thread random_data handed out more than 64 MiB without reading the entropy device once");
   set_context("");
 
   uint64_t returned_bytes = 0;
@@ -362,8 +386,55 @@ static void probe_first_use_with_descriptor_0() {
   else g_fd0_probe_failure = "the process died in its first random_data call when /dev/urandom was opened as descriptor 0";
 }
 
+// The very first use in a process happens while the descriptor table is full: that call may throw, but once
+// descriptors are available again the next calls must deliver (a failure of the first open must not stick).
+static void probe_first_use_without_free_descriptor() {
+  fflush(stdout);
+  fflush(stderr);
+  pid_t pid = fork();
+  if (pid < 0) return;
+  if (pid == 0) {
+    int devnull = open("/dev/null", O_WRONLY);
+    if (devnull >= 0) dup2(devnull, 2);
+    vfs::reset();
+    vfs::set_urandom(5, 777);
+    vfs::urandom_open_fails(1);
+    int code = 0;
+    uint8_t buf[64];
+    try {
+      phosg::random_data(buf, sizeof(buf)); // may throw: no descriptor
+    } catch (const std::exception&) {
+    }
+    for (int attempt = 0; attempt < 3 && !code; attempt++) {
+      try {
+        memset(buf, 0, sizeof(buf));
+        phosg::random_data(buf, sizeof(buf));
+        bool all_zero = true;
+        for (uint8_t b : buf) all_zero &= b == 0;
+        if (all_zero) code = 3;
+        int64_t v = phosg::random_int(-5, 5);
+        if (v < -5 || v > 5) code = 4;
+      } catch (const std::exception&) {
+        code = 2;
+      }
+    }
+    _exit(code);
+  }
+  int status = 0;
+  while (waitpid(pid, &status, 0) < 0 && errno == EINTR) {
+  }
+  if (WIFEXITED(status) && WEXITSTATUS(status) == 0) return;
+  if (!g_fd0_probe_failure.empty()) return;
+  if (WIFEXITED(status) && WEXITSTATUS(status) == 2) g_fd0_probe_failure = "the first random_data call of the process found no free descriptor (EMFILE); after descriptors were available again every later call still threw: the failed open is remembered for good";
+  else if (WIFEXITED(status) && WEXITSTATUS(status) == 3) g_fd0_probe_failure = "after a first call that found no free descriptor (EMFILE), random_data returned without filling the buffer";
+  else if (WIFEXITED(status) && WEXITSTATUS(status) == 4) g_fd0_probe_failure = "after a first call that found no free descriptor (EMFILE), random_int left [lo,hi]";
+  else g_fd0_probe_failure = "the process died in random_data after its first call had found no free descriptor (EMFILE)";
+  g_probe_key = "first_open_failed";
+}
+
 static void process_init() {
   probe_first_use_with_descriptor_0();
+  probe_first_use_without_free_descriptor();
   // random_data opens the device through a function-local static on its first call ever; do that
   // before any run so that every run starts from the same process state
   vfs::reset();
